@@ -989,6 +989,15 @@ func runCase(r *common.Rng, c *caseSpec, mode string) {
 		for _, e := range c.edits {
 			out.Line("%s", editLine(c, e))
 		}
+		for p, ps := range c.procs {
+			out.Line("%s", ps.arch.line(p))
+			for _, l := range ps.src {
+				out.Line("S %d %s", p, l)
+			}
+			if p < len(bm.Processors) {
+				out.Line("P %d %s", p, strings.Join(bm.Domains[bm.Processors[p]].Program.Slocs, " "))
+			}
+		}
 		if mode == "net" {
 			files, _ := fileSet(bm, false)
 			d, err := vlog.ParseFiles(files)
@@ -998,13 +1007,6 @@ func runCase(r *common.Rng, c *caseSpec, mode string) {
 			}
 			emitNetlist(d)
 			return ""
-		}
-		for p, ps := range c.procs {
-			out.Line("%s", ps.arch.line(p))
-			for _, l := range ps.src {
-				out.Line("S %d %s", p, l)
-			}
-			out.Line("P %d %s", p, strings.Join(bm.Domains[bm.Processors[p]].Program.Slocs, " "))
 		}
 		if mode == "hdl" {
 			emitHDL(bm)
